@@ -2,6 +2,7 @@ package main
 
 import (
 	"fmt"
+	"reflect"
 	"sort"
 	"strings"
 
@@ -137,7 +138,13 @@ func c04Compare(u *U, site string, desc func() string, shape string, inputs []ct
 	if len(sMarks) > 0 {
 		u.Violation(site+".invented", shape, fmt.Sprintf("%s: the run without any marks produced marks %v", desc(), sMarks))
 	}
-	if !rawEq(rmu, rsu) {
+	if rmu.Type().IsCapsuleType() && rsu.Type().Equals(rmu.Type()) && rmu.IsKnown() && rsu.IsKnown() && !rmu.IsNull() && !rsu.IsNull() {
+		// capsule values compare by pointer identity; two calls build two
+		// capsules, so their payloads are compared instead
+		if !reflect.DeepEqual(rmu.EncapsulatedValue(), rsu.EncapsulatedValue()) {
+			u.Violation(site+".result-differs", shape, fmt.Sprintf("%s: encapsulated result differs from the result on stripped inputs", desc()))
+		}
+	} else if !rawEq(rmu, rsu) {
 		u.Violation(site+".result-differs", shape, fmt.Sprintf("%s: unmarked result %s differs from the result on stripped inputs %s", desc(), goStr(rmu), goStr(rsu)))
 	}
 	got := marksDeep(rm)
@@ -290,4 +297,77 @@ func c04Extra(c *Ctx) {
 	for _, f := range c04Extras {
 		f(c)
 	}
+}
+
+// ---- standard-library functions x mark placements
+
+func init() {
+	c04Extras = append(c04Extras, c04Stdlib)
+}
+
+// c04ArgVariants: the argument itself, an unknown of its type, unknowns whose
+// refinements pin the length, and the argument with one nested member unknown.
+func c04ArgVariants(v cty.Value) []cty.Value {
+	out := []cty.Value{v, cty.UnknownVal(v.Type())}
+	if v.Type().IsCollectionType() && v.IsKnown() && !v.IsNull() {
+		n := v.LengthInt()
+		if w, ok := safeRefine(func() cty.Value {
+			return cty.UnknownVal(v.Type()).Refine().CollectionLengthLowerBound(n).CollectionLengthUpperBound(n).NewValue()
+		}); ok && !w.IsKnown() {
+			out = append(out, w)
+		}
+	}
+	if ps := allPositions(v, 2); len(ps) > 1 {
+		for _, p := range ps[1:] {
+			x := getAt(v, p)
+			if nv, ok := replaceAt(v, p, cty.UnknownVal(x.Type())); ok {
+				out = append(out, nv)
+				break
+			}
+		}
+	}
+	return out
+}
+
+func c04Stdlib(c *Ctx) {
+	stdUnits(c, false, 800, 25, func(u *U, fn *stdFn, lists [][]cty.Value) {
+		for _, base := range lists {
+			if c.Stopped() {
+				return
+			}
+			for i := range base {
+				p := fn.paramAt(i)
+				for _, av := range c04ArgVariants(base[i]) {
+					for _, mv := range markedVariants(av, [][]string{{markM1}, {markM1, markM2}}, true) {
+						if len(marksDeep(mv)) == 0 {
+							continue
+						}
+						args := append([]cty.Value(nil), base...)
+						args[i] = mv
+						promised := map[interface{}]bool{}
+						if p != nil && !p.AllowMarked {
+							promised = marksDeep(mv)
+						}
+						u.DistinctN(1)
+						c04Compare(u, fn.Name, func() string { return fn.Name + "(" + argsStr(args) + ")" }, shapesStr(args), args, promised,
+							func(in []cty.Value) (cty.Value, error) { return fn.F.Call(in) })
+					}
+				}
+			}
+			// marks on two arguments at once
+			if len(base) >= 2 {
+				args := append([]cty.Value(nil), base...)
+				args[0], args[1] = base[0].Mark(markM1), base[1].Mark(markM2)
+				promised := map[interface{}]bool{}
+				for i := 0; i < 2; i++ {
+					if p := fn.paramAt(i); p != nil && !p.AllowMarked {
+						promised[[]string{markM1, markM2}[i]] = true
+					}
+				}
+				u.DistinctN(1)
+				c04Compare(u, fn.Name, func() string { return fn.Name + "(" + argsStr(args) + ")" }, shapesStr(args), args, promised,
+					func(in []cty.Value) (cty.Value, error) { return fn.F.Call(in) })
+			}
+		}
+	})
 }
